@@ -914,6 +914,14 @@ REGRESS = [
     ('short r11[] = { [3] = 1, 2, [1] = 7 };', 'r11', None),
     ('struct E15 { int p; }; struct A15 { struct E15 a[3]; int b; }; struct A15 r15 = { { { 1 }, { }, { 5 } }, 7 };', 'r15', None),
     ('struct S16 { int :32; int a; int b; }; struct S16 r16 = { .a = 7, 8 };', 'r16', None),
+    # arrays of unknown size: the size is the largest index ever designated plus what follows it, whatever the order
+    ('int r23[] = { [5] = 50, [1] = 10, 20 };', 'r23', None),
+    ('struct P24 { char c; short s[2]; }; struct P24 r24[] = { [3].c = 1, [0] = { 2, { 3, 4 } }, [1].s[1] = 5 };', 'r24', None),
+    ('char r25[][3] = { [2] = "ab", [0] = "c", "d" };', 'r25', None),
+    # designator chains that reach five and more levels down before a braced sub-list
+    ('struct cube27 { int cell[2][2][2][2][2][2]; int n; }; struct cube27 r27 = { .cell[1][0][1][0][1] = {7, 8}, 9 };', 'r27', None),
+    ('struct leaf28 { int v[2]; int w; }; struct tree28 { struct { struct { struct { struct { struct leaf28 e; int d4; } d; int d3; } c; int d2; } b; int d1; } a; int top; };'
+     ' struct tree28 r28 = { .a.b.c.d.e.v = {1, 2}, 3, 4, 5, 6, 7, 8 };', 'r28', None),
     # objects declared before their type is complete: image, size and alignment of the completed type
     ('struct L17 r17; struct L17 { long a; char c; }; struct L17 r17 = { 5, 6 };', 'r17', None),
     ('union L18 r18; union L18 { char c[3]; int i; };', 'r18', None),
@@ -934,6 +942,8 @@ AUTO_PROBES = [
     ('struct S21 { int a:3; int b:5; unsigned c:12; long d:40; char e; short f; };', 'struct S21 x = { -1, 9, 0xabc, -2, \'e\' };', 16, None),
     ('struct S22 { char a; int b[3]; char c; };', 'struct S22 x = { .b[1] = 7, .c = 3 };', 20, None),
     ('union U23 { int a; char b; };', 'union U23 x = { .a = 1, .b = 2 };', 4, None),
+    ('', 'int x[] = { [5] = 50, [1] = 10, 20 };', 24, None),
+    ('struct P26 { int v[2]; };', 'struct P26 x[] = { [2].v[1] = 7, [0] = { { 1, 2 } }, { { 3 } } };', 24, None),
 ]
 D18 = ('union U18 { int a; char b; }; union U18 d18 = { .a = 1, .b = 2 };', 'd18')
 
